@@ -294,6 +294,23 @@ def gen_history(rng, nops, first_id=0):
     return ops, mode
 
 
+FORCED_CYCLE_EVERY = 25
+ALLOC_CYCLE_RETENTION_BOUND = 16
+
+
+def with_forced_cycles(ops):
+    """Bound what any single history can hold back: an explicit cycle (run from the scrubbed shallow
+    frame of the driver loop, where the roots are exact) after every FORCED_CYCLE_EVERY commands and
+    two at the end.  Whatever an allocation-triggered cycle kept conservatively - or leaked - must
+    be gone there, otherwise the oracle reports garbage-retained."""
+    out = []
+    for i, o in enumerate(ops):
+        out.append(o)
+        if (i + 1) % FORCED_CYCLE_EVERY == 0:
+            out.append("C")
+    return out + ["C", "C"]
+
+
 def gen_burst_history(rng, first_id=0):
     """Many dead blocks pile up while the collector is stopped; it is restarted with a pause that
     makes the next growth due, and a live block is grown IN PLACE: the cycle runs inside
@@ -716,6 +733,10 @@ def compare_model(h, mout_lines):
             break
         if kv.get("xs", "0") != "0":
             h.stats["extras"] += int(kv["xs"])
+            h.stats["max_alloc_cycle_retention"] = max(h.stats.get("max_alloc_cycle_retention", 0), int(kv["xs"]))
+            if int(kv["xs"]) > ALLOC_CYCLE_RETENTION_BOUND and h.exact_roots and not h.problems:
+                h.problems.append(("garbage-retained-at-allocation-cycle",
+                                   "the cycle run from inside '%s' kept %s blocks that are unreachable from the root table and from the block being registered (measured conservative retention is at most 3 per cycle; bound %d)" % (line[:50], kv["xs"], ALLOC_CYCLE_RETENTION_BOUND)))
             if line.startswith(("collect", "step")) and h.exact_roots:
                 mism.append("explicit cycle '%s': the implementation kept %s block(s) that the model frees (roots are exact there)" % (line[:40], kv["xs"]))
         if d is None:
@@ -1023,7 +1044,7 @@ def correspond(ctx):
         builds.append(("release", ["--release"], 1.0))
         builds.append(("asan", ["--cflags=-fsanitize=address -fno-omit-frame-pointer"], 0.125))
     rng = ctx.rng
-    nh = ctx.scale(160, 2200)
+    nh = ctx.scale(160, 3500)
     hists = []
     corpus_dir = os.path.join(vlib.VERIF, "corpus", ID)
     if os.path.isdir(corpus_dir):
@@ -1038,14 +1059,17 @@ def correspond(ctx):
         dist["modes"][mode] = dist["modes"].get(mode, 0) + 1
         for o in ops:
             dist["ops"][o[0]] = dist["ops"].get(o[0], 0) + 1
+        ops = with_forced_cycles(ops)
         hists.append(("rand-%d" % k, ops))
-    for k in range(ctx.scale(30, 300)):
+    for k in range(ctx.scale(30, 400)):
         ops = gen_burst_history(rng)
         dist["modes"]["burst-inplace-growth"] = dist["modes"].get("burst-inplace-growth", 0) + 1
         for o in ops:
             dist["ops"][o[0]] = dist["ops"].get(o[0], 0) + 1
+        ops = with_forced_cycles(ops)
         hists.append(("burst-%d" % k, ops))
-    total = {"collect_ops": 0, "objects": 0, "finalized": 0, "freed": 0, "extras": 0, "reach_checks": 0, "max_live": 0}
+    total = {"collect_ops": 0, "objects": 0, "finalized": 0, "freed": 0, "extras": 0, "reach_checks": 0, "max_live": 0,
+             "max_alloc_cycle_retention": 0}
     evaluations = 0
     nontrivial = 0
     n_oracle = n_mismatch = 0
@@ -1057,7 +1081,7 @@ def correspond(ctx):
         for h in res:
             evaluations += h.completed
             for k in total:
-                total[k] = max(total[k], h.stats[k]) if k == "max_live" else total[k] + h.stats[k]
+                total[k] = max(total[k], h.stats.get(k, 0)) if k.startswith("max_") else total[k] + h.stats[k]
             if h.stats["freed"] > 0 and h.stats["objects"] > 3:
                 nontrivial += 1
             if len(samples) < 4 and h.name.startswith("rand"):
@@ -1067,7 +1091,7 @@ def correspond(ctx):
                 if n_oracle <= 4:
                     kind, text = h.problems[0]
                     small = h.ops[:h.completed + 1]
-                    if kind != "harness":
+                    if kind not in ("harness", "garbage-retained-at-allocation-cycle"):
                         try:
                             small = shrink_history(binary, small, kind)
                         except Exception as ex:
